@@ -201,9 +201,12 @@ def ledger(rec, prog, info):
             removed = [x for x in c["events"] if x.startswith("REM ") and not x.endswith(" -")]
             inserted = [x for x in c["events"] if x.startswith("INS ")]
             if removed and inserted:          # same-price amend that succeeded
-                old = removed[0].split(" ")[2]
-                new = inserted[0].split(" ")[1]
-                e(gen.parse_order(old)["id"])["supplied"] += total(new) - total(old)
+                old = gen.parse_order(removed[0].split(" ")[2])
+                # what an amendment may legitimately add: the requested display minus the display of the
+                # order it took out, for the three types whose quantity can be amended; nothing otherwise
+                nq = int(c["op"].split(":")[-1] if c["op"].startswith("UPD UQ:") else c["op"].split(":")[3])
+                if old["kind"] in "SPI":
+                    e(old["id"])["supplied"] += nq - old["vis"]
             elif removed:                     # cancel / price move
                 old = removed[0].split(" ")[2]
                 e(gen.parse_order(old)["id"])["returned"] += total(old)
